@@ -9,3 +9,11 @@ for p in sys.argv[1:]:
         print(" roots:",v['tree']['roots'])
         print(" nodes:",[ (n[0],)+tuple(n[1:]) for n in v['tree']['nodes']])
     if 'observed' in v and 'visited' in v['observed']: print(" visited:",v['observed']['visited'])
+    if 'case' in v:
+        c=v['case']
+        print(" pattern:",c['pattern']," cfg:",{k:x for k,x in c['cfg'].items() if x not in (None,False,0,'lf','none') or k=='multi_line'})
+        print(" data:",c['data_shown'][:600])
+        print(" knobs:",v.get('knobs')," strategy:",v.get('strategy'))
+        for k in ('expected_slice','expected_model','observed'):
+            if k in v: print(" %-15s"%k, ' '.join(e[0] for e in v[k])[:400])
+        print(" result:",v.get('observed_result'))
